@@ -197,6 +197,18 @@ CLAIMED = {
         note="Trusted: Coq kernel (no axioms); the even-odd parity test is taken as the definition of inside (Jordan curve theorem not proved) under the contract that the reference point is "
              "inside the wall; target points are compared at a tolerance second order in the FineContour spacing (2.6e-6 m at Nfine = 100).",
         technique="Coq proofs on a computable exact-rational hand model + vm_compute correspondence + independent ray-casting oracle on grids and stub regions", design="6/C11"),
+    "C12": dict(
+        text="PARTIAL.  Proved (Coq; lists REGENERATED from doc/grid-file.rst, mesh.py and hypnotoad_geqdsk.py): every documented variable is written by writeGridfile (unconditionally "
+             "unless it only exists for some inputs); the options the command-line script reads itself are options it accepts; a contour passing the strict distance guard gives hy > 0 at "
+             "every stencil of calcHy and dy > 0; Mesh.__init__ refuses exactly when a shared option differs (hand model).  Decided by running the real pipeline (no model can exhibit the "
+             "numerical pipeline's behaviour on arbitrary inputs): a validity oracle (presence, shapes, finiteness except the documented NaNs and exactly there incl. chi against the region "
+             "layout, hy, dy > 0, dx of one sign, no folded cell, no all-zero staggered copy) on every corpus grid; 20+ configurations around the envelope (an exception or a valid file, never "
+             "a hang); command-line unknown / misspelt options, the script's own options, the shipped root-level option files; examples/tokamak and examples/torpex-xpoint; API option "
+             "consistency.",
+        note="Known finding F23 (all-zero x-face copies of the non-orthogonal metric / curvature) is reported as KNOWN-FINDING lines.  The shipped root option files can only be checked for "
+             "acceptance of their option set: the equilibria they were tuned for are git-LFS pointers.  Equilibrium-only options passed to BoutMesh with a changed value are ignored by design "
+             "(unknown-key rejection lives in the scripts): observed, not failed.",
+        technique="Coq proofs on regenerated lists / guards + validity oracle on real generations in and around the supported envelope", design="6/C12", partial=True),
 }
 
 PENDING = ["C01", "C03", "C04", "C05", "C06", "C07", "C08", "C09", "C10", "C11", "C12", "C13", "C14", "C15", "C16", "C17", "C18", "C19", "C20"]
